@@ -171,6 +171,55 @@ theorem next_epoch_rewards_sum {P : Params} {e o : EpochExt} {hn hc u ms : Nat}
     have : o.base * o.length < U64 := by omega
     simp [this, hsum, hR]
 
+
+/-- dev-chain arm (`permanent_difficulty`): constant length `⌈T / MIN_BLOCK_INTERVAL⌉`, target and
+hash-rate estimate unchanged, and the epoch still hands out exactly the scheduled reward. -/
+theorem permanent_arm_rewards_sum {P : Params} {e o : EpochExt} {hn : Nat}
+    (h : nextEpochExtPermanent P e hn = some o) :
+    ∃ R, primaryRewardOfNext P e = some R ∧ o.base * o.length + o.rem = R ∧ o.rem < o.length ∧
+      o.length = (P.T + MIN_BLOCK_INTERVAL - 1) / MIN_BLOCK_INTERVAL ∧ o.compact = e.compact ∧
+      o.prevHR = e.prevHR ∧ o.number = e.number + 1 := by
+  unfold nextEpochExtPermanent at h
+  simp only [Option.bind_eq_bind, Option.bind_eq_some_iff, chk64, chk_eq_some, divChk_eq_some, modChk_eq_some] at h
+  obtain ⟨R, hR, base, ⟨hL, hb⟩, rem, ⟨_, hr⟩, number, ⟨_, hnum⟩, start, ⟨_, hs⟩, ho⟩ := h
+  injection ho with ho; subst ho
+  refine ⟨R, hR, ?_, ?_, rfl, rfl, rfl, hnum⟩
+  · show base * _ + rem = R
+    rw [hb, hr, Nat.mul_comm]; exact Nat.div_add_mod R _
+  · show rem < _
+    rw [hr]; exact Nat.mod_lt _ (Nat.pos_of_ne_zero hL)
+
+/-- `build_genesis_epoch_ext`: the genesis epoch distributes exactly the configured epoch reward and
+starts the hash-rate estimate at `difficulty·(L + ⌊L·o⌋)/T`. -/
+theorem genesis_epoch_rewards_sum {R compact L T on od : Nat} {o : EpochExt}
+    (h : genesisEpochExt R compact L T on od = some o) :
+    o.base * o.length + o.rem = R ∧ o.rem < o.length ∧ o.length = L ∧ o.number = 0 ∧
+      o.prevHR = compactToDifficulty compact * (L + L * on / od) / T := by
+  unfold genesisEpochExt at h
+  simp only [Option.bind_eq_bind, Option.bind_eq_some_iff] at h
+  obtain ⟨base, h1, rem, h2, x, h3, oc, h4, blocks, h5, prod, h6, hr2, h7, ho⟩ := h
+  simp only [chk64, chk256, chk_eq_some] at h3 h5 h6
+  rw [divChk_eq_some] at h1 h4 h7
+  rw [modChk_eq_some] at h2
+  obtain ⟨hL, hb⟩ := h1
+  obtain ⟨_, hr⟩ := h2
+  obtain ⟨_, hx⟩ := h3
+  obtain ⟨_, hoc⟩ := h4
+  obtain ⟨_, hbl⟩ := h5
+  obtain ⟨_, hp⟩ := h6
+  obtain ⟨_, hhr⟩ := h7
+  injection ho with ho; subst ho
+  refine ⟨?_, ?_, rfl, rfl, ?_⟩
+  · show base * L + rem = R
+    rw [hb, hr, Nat.mul_comm]; exact Nat.div_add_mod R _
+  · show rem < L
+    rw [hr]; exact Nat.mod_lt _ (Nat.pos_of_ne_zero hL)
+  · show hr2 = _
+    rw [hhr, hp, hbl, hoc, hx]
+
+example : ∃ o, genesisEpochExt 191780821917808 0x1a08a8b1 1000 14400 1 40 = some o ∧ o.prevHR = 0x21abc6d475102 := by
+  refine ⟨_, rfl, ?_⟩; decide +kernel
+
 /-! ## halving -/
 
 /-- `halving_on_schedule`: one halving interval later the scheduled epoch reward is exactly half
@@ -277,6 +326,67 @@ example : epochVerify (enfPack 5 2 4) (enfPack 5 3 4) = .ok ∧ epochVerify (enf
     epochVerify (enfPack 5 3 4) (enfPack 5 4 4) = .malformed ∧ epochVerify (enfPack 5 2 4) (enfPack 6 0 7) = .nonContinuous := by
   decide +kernel
 
+
+
+/-! ## epoch fields along a chain built from `EpochExt`s
+
+The contextual `EpochVerifier` forces `header.epoch() = epoch_ext.number_with_fraction(number)`; the
+two theorems below show that the positions so obtained — inside one epoch, and across the boundary to
+the epoch computed by `next_epoch_ext` — are accepted by the non-contextual `EpochVerifier`
+(`is_well_formed` + `is_successor_of`), i.e. consecutive blocks' epoch fields are gap-free. -/
+
+theorem numberWithFraction_eq {e : EpochExt} {i : Nat} :
+    numberWithFraction e (e.start + i) = some (enfPack e.number i e.length) := by
+  unfold numberWithFraction subChk
+  simp
+
+/-- inside an epoch, the positions reported for consecutive block numbers are accepted by the
+(non-contextual) `EpochVerifier` -/
+theorem epoch_fields_consecutive_within (e : EpochExt) (i : Nat)
+    (hn : e.number < 2 ^ EPOCH_NUMBER_BITS) (hl : e.length < 2 ^ EPOCH_LENGTH_BITS) (hi : i + 1 < e.length) :
+    ∃ a b, numberWithFraction e (e.start + i) = some a ∧ numberWithFraction e (e.start + (i + 1)) = some b ∧
+      epochVerify a b = .ok := by
+  refine ⟨_, _, numberWithFraction_eq, numberWithFraction_eq, ?_⟩
+  have hib : i < 2 ^ EPOCH_INDEX_BITS ∧ i + 1 < 2 ^ EPOCH_INDEX_BITS := by
+    simp only [EPOCH_INDEX_BITS, EPOCH_LENGTH_BITS] at *; omega
+  obtain ⟨a1, a2, a3⟩ := enf_roundtrip hn hib.1 hl
+  obtain ⟨b1, b2, b3⟩ := enf_roundtrip hn hib.2 hl
+  have hg : enfIsGenesis (enfPack e.number i e.length) = false := by
+    unfold enfIsGenesis; rw [a3]; simp; omega
+  rw [epoch_successor_iff_next_position _ _ hg, a1, a2, a3, b1, b2, b3]
+  have : ¬ (i + 1 = e.length) := by omega
+  simp only [this, if_false]
+  exact ⟨⟨by omega, hi⟩, trivial, trivial, trivial⟩
+
+/-- across an epoch boundary: the last block of epoch `e` and the first block of the epoch computed by
+`next_epoch_ext` carry consecutive epoch fields -/
+theorem epoch_fields_consecutive_across {P : Params} {e o : EpochExt} {hc u ms : Nat}
+    (h : nextEpochExt P e (e.start + (e.length - 1)) hc u ms = some o)
+    (hL : MIN_EPOCH_LENGTH ≤ e.length ∧ e.length ≤ MAX_EPOCH_LENGTH)
+    (hn : e.number + 1 < 2 ^ EPOCH_NUMBER_BITS) :
+    ∃ a b, numberWithFraction e (e.start + (e.length - 1)) = some a ∧
+      numberWithFraction o (e.start + (e.length - 1) + 1) = some b ∧ epochVerify a b = .ok := by
+  obtain ⟨h1, h2, _, _⟩ := next_len_bounds h hL
+  obtain ⟨_, _, _, _, _, _, _, _, _, _, _, _, _, _, _, _, _, ho⟩ := nextEpochExt_some h
+  have hnum : o.number = e.number + 1 := by rw [ho]
+  have hst : o.start = e.start + (e.length - 1) + 1 := by rw [ho]
+  have hmin : MIN_EPOCH_LENGTH = 300 := by decide
+  have hmax : MAX_EPOCH_LENGTH = 1800 := by decide
+  have hb : numberWithFraction o (e.start + (e.length - 1) + 1) = some (enfPack o.number 0 o.length) := by
+    have := numberWithFraction_eq (e := o) (i := 0)
+    rw [hst] at this; simpa using this
+  refine ⟨_, _, numberWithFraction_eq, hb, ?_⟩
+  simp only [EPOCH_NUMBER_BITS] at *
+  obtain ⟨a1, a2, a3⟩ := enf_roundtrip (n := e.number) (i := e.length - 1) (l := e.length)
+    (by simp only [EPOCH_NUMBER_BITS]; omega) (by simp only [EPOCH_INDEX_BITS]; omega) (by simp only [EPOCH_LENGTH_BITS]; omega)
+  obtain ⟨b1, b2, b3⟩ := enf_roundtrip (n := o.number) (i := 0) (l := o.length)
+    (by simp only [EPOCH_NUMBER_BITS]; omega) (by simp only [EPOCH_INDEX_BITS]; omega) (by simp only [EPOCH_LENGTH_BITS]; omega)
+  have hg : enfIsGenesis (enfPack e.number (e.length - 1) e.length) = false := by
+    unfold enfIsGenesis; rw [a3]; simp; omega
+  rw [epoch_successor_iff_next_position _ _ hg, a1, a2, a3, b1, b2, b3]
+  have : e.length - 1 + 1 = e.length := by omega
+  simp only [this, if_true]
+  exact ⟨⟨by omega, by omega⟩, hnum, trivial⟩
 
 /-! ## compact target / difficulty conversions
 
